@@ -300,6 +300,11 @@ func renderGenbank(genes []gene, genome string) (text string, proto string) {
 			}
 			val = val[w:]
 		}
+		if len(tr)%3 == 1 {
+			// a hard-wrapped /note whose continuation line starts with '/' and holds '=' (a URL cut by the 80-column
+			// wrapping): still the note's text, not a new qualifier; the next feature must be read as usual
+			fmt.Fprintf(&b, "                     /note=\"curated, see https://db.example.org\n                     /genes?name=%s\"\n", g.name)
+		}
 		pf = append(pf, strings.Join([]string{g.name, g.gbForm, g.protoSegs(), fmt.Sprint(g.codonStart), tr}, "~"))
 	}
 	b.WriteString("ORIGIN      \n")
